@@ -188,12 +188,12 @@ CHECKS = {
     "C02": dict(
         modules=["AggkitModel.Properties.C02"],
         scenarios=[dict(name="aggsender")],
-        generated=[],
+        generated=["CertFacts"],
         leanchecker=True,
         level_text="Proved in Lean 4 by induction over EVERY operation sequence of any length (L2 blocks, epoch ticks, status ticks, Agglayer status moves, failing Agglayer calls, crashes between iterations, crashes between a submission and its local record, loss of the database, restarts), for both retry settings, any start block, any size limit and any size function: "
-                   "C02_chain_partial — only the most recent certificate can be undecided; every certificate the Agglayer ever received has (height, previous exit root, first block) = (height+1, new exit root, last block+1) of the last settled certificate before it, or (0, empty root, start block+1) at the start; it carries exactly the bridge exits and claims of its block range; "
+                   "C02_chain — only the most recent certificate can be undecided; every certificate the Agglayer ever received has (height, previous exit root, first block) = (height+1, new exit root, last block+1) of the last settled certificate before it, or (0, empty root, start block+1) at the start; it carries exactly the bridge exits and claims of its block range; "
                    "corollaries C02_no_overlap, C02_replacement (a replacement reuses height, previous root and first block of the in-error certificate), C02_after_settled, C02_settled_heights (settled heights are 0,1,2,… without gap or repeat), C02_exactly_once (the exits/claims of the settled certificates in height order are exactly the events of the covered blocks, once, in chain order). "
-                   "PARTIAL: proved for Agglayers whose headers carry the previous local exit root (omitPrev=false); the fallback to the record one height below (older Agglayers) is modelled and covered by correspondence + monitors only. "
+                   "Proved for every configuration, including Agglayers whose headers carry no previous local exit root (the fallback to the settled record one height below is sound because settled certificates are unique per height: settled_unique). C02_code_facts — the regenerated source facts the model rests on (poll before send in both loop arms; build, submit, then record; the recorded header's fields; the open statuses). "
                    "Tie: the real AggSender loop (one iteration per op through the verif hook), real AggSenderSQLStorage, real PPFlow/baseFlow, real status checker, real query layer over the real L2 bridge processor and the real L1 info tree processor, real gRPC client — against a fake Agglayer implementing the gRPC service clients, vs the compiled model (every submission: id, height, metadata-decoded range, exit roots, exit counts; the certificate_info rows after every tick/restart). "
                    "Monitors (no model involved) evaluate the chain predicate on the fake Agglayer's log at every submission and the exactly-once clause at the end of each world.",
         level_note="Trusted: Lean kernel; model/code correspondence (generator-bounded); the fake Agglayer fails cleanly (a submission reported as failed was not applied); no L2 reorg inside a world; exit roots are compared through an independently computed root table (deposit-contract algorithm); the FEP flow is not exercised by this scenario.",
@@ -204,11 +204,11 @@ CHECKS = {
     "C03": dict(
         modules=["AggkitModel.Properties.C03"],
         scenarios=[dict(name="aggsender"), dict(name="certcodec")],
-        generated=[],
+        generated=["CertFacts"],
         leanchecker=True,
         level_text="Proved in Lean 4. Byte level, for every field value and any 32-byte hash function: C03_exit_leaf — the exit the node builds for a bridge event hashes (BridgeExit.Hash, the Agglayer's side) to exactly the leaf the event has in the L2 exit tree (Bridge.Hash), empty and non-empty metadata alike; C03_exit_fields — every field is carried over unchanged; "
                    "C03_wire_leaf — the leaf recomputed from the submission message equals it; C03_metadata_roundtrip — the metadata of a certificate for blocks [f,t] decodes to that range, creation time and type (ranges narrower than 2^32 blocks). "
-                   "Protocol level, by the induction over all histories of C02: C03_root — in every reachable state every certificate the Agglayer received carries exactly the bridge events and claims of its block range in chain order, the deposit counts of its exits are prev, prev+1, … (the leaves that follow the tree its previous exit root commits to) and its new exit root is the root after exactly these leaves — for previous-certificate states none / settled / in error alike. PARTIAL as C02 (omitPrev=false). "
+                   "Protocol level, by the induction over all histories of C02: C03_root — in every reachable state every certificate the Agglayer received carries exactly the bridge events and claims of its block range in chain order, the deposit counts of its exits are prev, prev+1, … (the leaves that follow the tree its previous exit root commits to) and its new exit root is the root after exactly these leaves — for previous-certificate states none / settled / in error alike. "
                    "Tie: aggsender scenario (real PPFlow/baseFlow/query layer over the real bridge processor; what the fake Agglayer receives on the wire) with monitors comparing every wire exit field by field with the generated event, re-deriving the new exit root by appending the WIRE exits' hashes to an independent deposit-contract tree of the previous root, and decoding the metadata; "
                    "certcodec scenario (real getBridgeExits / ConvertClaimToImportedBridgeExit / Bridge.Hash / BridgeExit.Hash / gRPC conversion / metadata codec vs the model's own Keccak, byte for byte).",
         level_note="Trusted: Lean kernel; model/code correspondence (generator-bounded); exit roots are identified with leaf counts in the protocol model (justified by C01/C08 and checked per submission by the root-table monitor); Keccak is a parameter of the theorems (the driver runs a Lean Keccak-256 validated against go-ethereum's on every op).",
@@ -219,7 +219,7 @@ CHECKS = {
     "C06": dict(
         modules=["AggkitModel.Properties.C06"],
         scenarios=[dict(name="reorgsync")],
-        generated=[],
+        generated=["CertFacts"],
         leanchecker=True,
         level_text="Proved in Lean 4 by induction over EVERY history (new blocks, reorgs at any depth above the finalized block with shorter or longer new forks, successive reorgs, finality moving at any time, two subscribers progressing at any relative speed, detection passes, restarts, a stop of the node while a syncer is rewinding — at any moment, any length): "
                    "C06_tracked_or_final — every block a syncer has processed is still tracked by the detector with the hash it was processed with, or was delivered as finalized and is on the chain; C06_detected — after a detection pass that could fetch the headers it needed no block that the chain has replaced remains in the syncer's store (it was rewound to at or before the first replaced block it had processed), and the rewind point is exactly the first tracked block whose hash differs; "
@@ -263,7 +263,7 @@ CHECKS = {
     "C12": dict(
         modules=["AggkitModel.Properties.C12"],
         scenarios=[dict(name="bridgeapi")],
-        generated=[],
+        generated=["CertFacts"],
         leanchecker=True,
         level_text="Proved in Lean 4 for EVERY content of the L1 info tree, the verified-batches table and the bridge stores and every deposit count: C12_index_covers_l1 / C12_index_covers_l2 — whenever the L1-info-index lookup (both binary searches, modelled loop for loop over the queries they issue: first/last/first-after-block info, first/last/first-after-block verified batches, first info with a rollup exit root, root by exit root) answers with an index, "
                    "that index is a recorded leaf whose mainnet exit root (rollup exit root) commits to more than the asked deposit count; in every other case it returns an error. C12_claim_proof — after any history of an exit tree store the proof served for (deposit, exit root of any recorded version covering it) hashes the deposit's leaf to exactly that root (C08's store theorem; the rollup exit tree half is C08_updatable_step). "
@@ -276,11 +276,11 @@ CHECKS = {
     "C13": dict(
         modules=["AggkitModel.Properties.C13"],
         scenarios=[dict(name="aggsender"), dict(name="certcodec")],
-        generated=[],
+        generated=["CertFacts"],
         leanchecker=True,
         level_text="Proved in Lean 4 over the same machine and the same unbounded histories as C02 (crash between iterations, crash between SendCertificate and SaveLastSentCertificate — also of a replacement —, loss of the database at any time, restarts, failing Agglayer calls): "
                    "C13_next_certificate_correct — in every reachable state in which the node runs, the certificate it builds next has the height, previous exit root and first block that the Agglayer's records require, and is built only when the Agglayer's last certificate is decided; C13_restart_reconciles — a successful start-up reconciliation leaves records that describe the Agglayer's last certificate; "
-                   "C13_reconciliation_succeeds — in every reachable stopped state the reconciliation succeeds unless an Agglayer call fails (so a refusal needs records that no history produces); C13_one_per_height; process_spec (the decision table of initialStatus.process, verbatim, is sound for every (settled?, pending?, local?) triple). PARTIAL as C02 (omitPrev=false). "
+                   "C13_reconciliation_succeeds — in every reachable stopped state the reconciliation succeeds unless an Agglayer call fails (so a refusal needs records that no history produces); C13_one_per_height; process_spec (the decision table of initialStatus.process, verbatim, is sound for every (settled?, pending?, local?) triple); C13_code_facts (regenerated metadata byte layout). "
                    "Genuine defect found and fixed in /repo: F10 (after a stop between submitting the replacement of an InError certificate and recording it, start-up refused forever). "
                    "Tie: same scenario as C02 (real status checker CheckInitialStatus through Start's own sequence, real storage with the database file deleted for `losedb`, process killed by a panic inside the storage wrapper for a crash between submit and store, SQL-trigger statement faults inside the real save transaction); monitors: first certificate after every restart is checked against the Agglayer's log; a refused start-up is checked against an independent notion of contradiction; a failed save must leave the rows unchanged.",
         level_note="Trusted: Lean kernel; model/code correspondence (generator-bounded); atomicity of the save transaction is SQLite's (observed by the savefault monitor, not proved); a crash is modelled at the two points where the outcome differs (between iterations; between submit and store).",
